@@ -77,7 +77,13 @@ mutual
       cases h4
       exact ((pureE_funcs f _ _ _ hp.2 h3).trans (pureE_funcs t _ _ _ hp.1.2 h2)).trans (pureE_funcs c base st _ hp.1.1 h1)
     | .postfix _ _, _, _, _, hp, _ => by simp [pureE] at hp
-    | .call _ _, _, _, _, hp, _ => by simp [pureE] at hp
+    | .call fn args, base, st, r, hp, h => by
+      simp only [compileExpr, bind_ok_eq, pure, Except.pure] at h
+      obtain ⟨⟨c, st1⟩, h1, h2⟩ := h
+      cases h2
+      simp only [pureE] at hp
+      simp only [withConst_funcs]
+      exact pureEs_funcs args base st (c, st1) hp h1
     | .assign _ _, _, _, _, hp, _ => by simp [pureE] at hp
     | .ifE _ _ _, _, _, _, hp, _ => by simp [pureE] at hp
     | .whileE _ _, _, _, _, hp, _ => by simp [pureE] at hp
